@@ -704,6 +704,14 @@ class Gen:
             if self.num_weights and rng.random() < 0.5:
                 w = [rng.choice(["np", "fl"]), w]   # the caller hands numpy integers / integral floats
             d.append([i, w])
+        if any(isinstance(x[1], list) and x[1][0] == "fl" for x in d) and \
+                any(abs(x[1][1] if isinstance(x[1], list) else x[1]) > 2 ** 53 for x in d):
+            # a float anywhere in a dictionary makes numpy take the whole row through float64: weights past 2^53
+            # next to a float lose their last bits *by the caller's choice of type* (the declared type is int) –
+            # nothing the property promises; such dictionaries carry their integral floats as numpy integers instead
+            for x in d:
+                if isinstance(x[1], list) and x[1][0] == "fl":
+                    x[1][0] = "np"
         if rng.random() < 0.12:
             # an id the model does not have: either far from every id, or an existing id with something appended
             unk = "zz" if rng.random() < 0.5 or not ids else rng.choice(ids) + rng.choice(["0", "1", "x", "_b"])
